@@ -74,9 +74,14 @@ type c19Resp struct {
 type c19Req struct {
 	Method string `json:"method"`
 	URI    string `json:"uri"`
-	// request target in absolute form (`GET http://host/path HTTP/1.1`) when Host != ""
+	// request target in absolute form (`GET http://host/path HTTP/1.1`) when Scheme != ""; Host is the
+	// whole authority (userinfo, host, port) and may be EMPTY (`GET http:///path HTTP/1.1`, round 9)
 	Scheme string `json:"scheme,omitempty"`
 	Host   string `json:"host,omitempty"`
+	// real-server kind: the absolute-form request line is written to a TCP connection byte for byte
+	// (net/http's client cannot express an empty authority, an empty path, userinfo or a scheme that
+	// is not "http"); always so when the authority is empty
+	Raw bool `json:"raw,omitempty"`
 	// websocket upgrade: Body = bytes the client sends after the 101, Resp.Body = bytes the upstream
 	// sends back before it closes the tunnel
 	WS bool `json:"ws,omitempty"`
@@ -780,7 +785,7 @@ func init() {
 			"kind 4 simultaneous rounds (60 quick / 600 thorough cases of 10-39 rounds, 20-119 thorough): a list of 0-1500 (4000) filler targets, per round 2-8 goroutines issue ONE call each, released together by a spin barrier and joined before the next round — everybody AddTarget of one absent name (often followed by everybody RemoveTarget of it), everybody RemoveTarget of one name, adds and removes of one name mixed with picks, a burst of AddTarget of different new names, a burst of RemoveTarget of different names, free mixes; oracle per round and name: present before + successful adds = successful removes + present after (so never two successful AddTarget of an absent name, never two successful RemoveTarget of one entry), a refused AddTarget / RemoveTarget needs a moment at which the name was present / absent, a pick is a target that was on the list at some moment of the round, nil only if no target was there throughout; after each round the implied membership is probed sequentially (AddTarget of a member and RemoveTarget of a non-member answer false, a round-robin cycle over <= 48 members visits each once), at the end every member is removed exactly once and Next answers nil; " +
 			"rewrite rules for the SHORTEST and the LONGEST targets (round 8): 1/8 of the kind-1/5 cases have a catch-all rule as their only rule (`/*`, `^/*`, `*`, `^*`, `/`, the empty pattern), 1/8 have 1-3 exact rules for the shortest targets (`^/`, `^`, `^/?*`) beside the marker rules; their requests are `/`, `/?`, `/?x=1`, `/a`, `/a/`, `/%2F`, … and path-less absolute-form targets (``, `?`, `?x=1` after the authority: 1/3 of the absolute-form requests of these cases), expectation written down per rule shape; 1/40 of all captures and 1/12 of the catch-all targets carry a run of 63/64/65, 255-257, 1023/1025, 2049, 4095/4097 or 8200 bytes; " +
 			"request bodies: 1/3 of the requests with a body-carrying method are sent with UNKNOWN length (a reader net/http cannot size: ContentLength -1 in-process, a chunked upload through the real server; also zero bytes); " +
-			"kinds 1/3/5 draw the configuration: Proxy(balancer) (1/8) or ProxyWithConfig with custom RetryFilter (scripted answers by call, or by HTTPError code), ErrorHandler (maps to 503/418/502 or writes its own answer), Skipper (header based), ContextKey, TargetProvider balancer with scripted errors (HTTPError 503/502/429 or a plain error at NextTarget call 0-2), half of the rules via RegexRewrite, Transport (nil / *http.Transport / logging RoundTripper), a second echo instance sharing the balancer; per request 1/6 absolute-form request target (http/https, host, host:port, IPv6, 1/4 of these with upper-case scheme or userinfo), websocket upgrade through e.ServeHTTP (not hijackable), extension method PROPFIND; " +
+			"kinds 1/3/5 draw the configuration: Proxy(balancer) (1/8) or ProxyWithConfig with custom RetryFilter (scripted answers by call, or by HTTPError code), ErrorHandler (maps to 503/418/502 or writes its own answer), Skipper (header based), ContextKey, TargetProvider balancer with scripted errors (HTTPError 503/502/429 or a plain error at NextTarget call 0-2), half of the rules via RegexRewrite, Transport (nil / *http.Transport / logging RoundTripper), a second echo instance sharing the balancer; per request 1/6 absolute-form request target (http/https, host, host:port, IPv6, 1/4 of these with upper-case scheme or userinfo; round 9: 1/3 of these with an authority that is EMPTY (`http:///p`, `http://`, `http://?x=1`), one byte, a bare port, an IPv6 literal without port, userinfo without host; path-less targets whose query has slashes or carries a path a rule is made for; the real-server kind writes half of the absolute-form request lines (all with an empty authority) to a TCP connection byte for byte, so empty path, userinfo, upper-case and https schemes reach net/http's server parser too), websocket upgrade through e.ServeHTTP (not hijackable), extension method PROPFIND; " +
 			"non-trivial = (kind 0) a sequence with a successful removal, a retry pick and a wrap-around of the round-robin index, or (kind 1) a scenario in which a request was retried onto another target or a rewrite rule fired; distinct = distinct model op lines",
 		New:            func() any { return &c19Case{} },
 		Gen:            c19Gen,
